@@ -354,67 +354,78 @@ func c19Structured(c c19Conf) (c19Conf, error) {
 	return sc, err
 }
 
-func c19RunReload(x *c19Ctx, c c19ReloadCase) (res c19Result) {
-	res.classes = map[string]bool{}
+func c19RunReload(x *c19Ctx, c c19ReloadCase, res *c19Result) {
 	ips, hosts := c19PolicyProbeIPs(), c19PolicyProbeHosts()
-	fail := func(k, m string) c19Result { res.key, res.msg = k, m; return res }
 
 	// ---- start-up
 	if err := c19PutConfig(x, "", c.Init); err != nil {
-		return fail("harness", err.Error())
+		res.harness = err.Error()
+		return
 	}
 	if err := c19PutSubnets(x, "", c.InitSub); err != nil {
-		return fail("harness", err.Error())
+		res.harness = err.Error()
+		return
 	}
 	initS, err := c19Structured(c.Init)
 	if err != nil {
-		return fail("harness", err.Error())
+		res.harness = err.Error()
+		return
 	}
 	parsed, perr, pp := c19Load()
 	if pp != nil {
-		return fail("panic:parseconfig:"+c19PanicCause(pp), fmt.Sprintf("start-up: ParseConfig panicked instead of returning an error: %s [%s]", pp.Val, c19ShortStack(pp)))
+		res.report("panic:parseconfig:"+c19PanicCause(pp), fmt.Sprintf("start-up: ParseConfig panicked instead of returning an error: %s [%s]", pp.Val, c19ShortStack(pp)))
+		return
 	}
 	pol := c19BuildPolicy(initS)
 	if perr != nil {
 		if _, _, bad := pol.anyUnreadable(); bad || pol.anyRepaired() || initS.tomlMalformed() {
 			res.class("init-rejected")
-			return res
+			return
 		}
-		return fail("harness", "the initial configuration is refused: "+perr.Error())
+		res.harness = "the initial configuration is refused: " + perr.Error()
+		return
 	}
 	if k, e, bad := pol.anyUnreadable(); bad {
-		return fail("dropped:"+k, fmt.Sprintf("start-up: the configuration was accepted although %s entry %q cannot be parsed", k, e))
+		res.report("dropped:"+k, fmt.Sprintf("start-up: the configuration was accepted although %s entry %q cannot be parsed", k, e))
+		return
 	}
 	st, rejected, key, msg := c19BringUp(x, parsed, false)
+	if key == "harness" {
+		res.harness = msg
+		return
+	}
 	if key != "" {
-		return fail(key, msg)
+		res.report(key, msg)
+		return
 	}
 	if rejected != "" {
-		return fail("harness", "the initial configuration does not start: "+rejected)
+		res.harness = "the initial configuration does not start: " + rejected
+		return
 	}
 	obs := c19Observe(st.rm, ips, hosts)
 	if k, m := c19PolicyMatches(x, obs, pol, ips, hosts); k != "" {
-		return fail(k, "start-up: "+m)
+		res.report(k, "start-up: "+m)
 	}
 	if ok, why := c19SelectorIs(obs, c.InitSub); !ok {
-		return fail("harness", "start-up selector: "+why)
+		res.harness = "start-up selector: " + why
+		return
 	}
-	if k, m := st.housekeeping("start-up"); k != "" {
-		return fail(k, m)
-	}
+	st.housekeeping("start-up", res.report)
 
 	// ---- reloads
-	diskConf := &initS       // nil: nothing loadable at the path
-	diskSub := c.InitSub     // -1: nothing loadable at the path
-	curSub := c.InitSub      // version the selector must currently answer from
-	hadSuccess := false      // a reload in which every part loaded
+	diskConf := &initS   // nil: nothing loadable at the path
+	diskSub := c.InitSub // -1: nothing loadable at the path
+	curSub := c.InitSub  // version the selector must currently answer from
+	hadSuccess := false  // a reload in which every part loaded
 	for i, s := range c.Steps {
 		where := fmt.Sprintf("step %d %v", i, s)
 		if err := c19PutConfig(x, s.ConfFault, s.Conf); err != nil {
-			return fail("harness", err.Error())
+			res.harness = err.Error()
+			return
 		}
 		if err := c19PutSubnets(x, s.SubFault, s.SubV); err != nil {
-			return fail("harness", err.Error())
+			res.harness = err.Error()
+			return
 		}
 		switch s.ConfFault {
 		case "keep":
@@ -424,7 +435,8 @@ func c19RunReload(x *c19Ctx, c c19ReloadCase) (res c19Result) {
 		default:
 			sc, err := c19Structured(s.Conf)
 			if err != nil {
-				return fail("harness", err.Error())
+				res.harness = err.Error()
+				return
 			}
 			diskConf = &sc
 		}
@@ -443,18 +455,21 @@ func c19RunReload(x *c19Ctx, c c19ReloadCase) (res c19Result) {
 		// what main.go does on SIGHUP
 		newConf, rerr, rp := c19Load()
 		if rp != nil {
-			return fail("panic:parseconfig:"+c19PanicCause(rp), fmt.Sprintf("%s: ParseConfig panicked on reload (this kills the running station): %s [%s]", where, rp.Val, c19ShortStack(rp)))
+			// the station is dead: nothing to carry on with
+			res.report("panic:parseconfig:"+c19PanicCause(rp), fmt.Sprintf("%s: ParseConfig panicked on reload (this kills the running station): %s [%s]", where, rp.Val, c19ShortStack(rp)))
+			return
 		}
 		if rerr == nil {
 			if p := c19Recover(func() { st.rm.OnReload(newConf.RegConfig) }); p != nil {
-				return fail("panic:onreload", fmt.Sprintf("%s: OnReload panicked: %s [%s]", where, p.Val, c19ShortStack(p)))
+				res.report("panic:onreload", fmt.Sprintf("%s: OnReload panicked: %s [%s]", where, p.Val, c19ShortStack(p)))
+				return
 			}
 		}
 		after := c19Observe(st.rm, ips, hosts)
 
 		// ---- oracle
 		var npol *c19Policy
-		mustReject, mayReject := false, false
+		mustReject := false
 		if diskConf == nil {
 			mustReject = true
 		} else {
@@ -468,22 +483,28 @@ func c19RunReload(x *c19Ctx, c c19ReloadCase) (res c19Result) {
 				res.class("config-unparseable-entry")
 			}
 			if npol.anyRepaired() {
-				mayReject = true
 				res.class("config-stray-whitespace-entry")
 			}
 		}
-		_ = mayReject
-		if rerr == nil && mustReject {
+		switch {
+		case rerr == nil && mustReject:
+			// behind a known finding of this kind the policies in force are unspecified: the next
+			// step is judged against what is observed now
 			if diskConf != nil && !diskConf.tomlMalformed() {
 				k, e, _ := npol.anyUnreadable()
-				return fail("dropped:"+k, fmt.Sprintf("%s: the reloaded configuration was accepted although %s entry %q cannot be parsed; the previous policies must stay in force", where, k, e))
+				res.report("dropped:"+k, fmt.Sprintf("%s: the reloaded configuration was accepted although %s entry %q cannot be parsed; the previous policies must stay in force", where, k, e))
+			} else {
+				res.report("reload:malformed-config-accepted", fmt.Sprintf("%s: ParseConfig reported no error for a configuration file that is unreadable or not valid TOML for the configuration's types", where))
 			}
-			return fail("reload:malformed-config-accepted", fmt.Sprintf("%s: ParseConfig reported no error for a configuration file that is unreadable or not valid TOML for the configuration's types", where))
-		}
-		if rerr != nil {
+			if diskSub >= 0 {
+				if ok, _ := c19SelectorIs(after, diskSub); ok {
+					curSub = diskSub
+				}
+			}
+		case rerr != nil:
 			res.class("step:config-rejected")
 			if after.policy() != obs.policy() {
-				return fail("reload:policy-changed-after-failed-load", fmt.Sprintf("%s: the configuration failed to load (%v) but the policy decisions changed: before %s after %s", where, rerr, obs.policy(), after.policy()))
+				res.report("reload:policy-changed-after-failed-load", fmt.Sprintf("%s: the configuration failed to load (%v) but the policy decisions changed: before %s after %s", where, rerr, obs.policy(), after.policy()))
 			}
 			if after.selector() != obs.selector() {
 				// main.go does not look at the subnet file when the configuration fails; a station that did
@@ -493,32 +514,34 @@ func c19RunReload(x *c19Ctx, c c19ReloadCase) (res c19Result) {
 					okNew, _ = c19SelectorIs(after, diskSub)
 				}
 				if !okNew {
-					return fail("reload:selector-changed-after-failed-load", fmt.Sprintf("%s: the configuration failed to load and the subnet file is %s, but the selector's answers changed: before %s after %s", where, c19SubState(diskSub), obs.selector(), after.selector()))
+					res.report("reload:selector-changed-after-failed-load", fmt.Sprintf("%s: the configuration failed to load and the subnet file is %s, but the selector's answers changed: before %s after %s", where, c19SubState(diskSub), obs.selector(), after.selector()))
+				} else {
+					curSub = diskSub
 				}
-				curSub = diskSub
 			}
 			if hadSuccess {
 				res.class("fail-after-success")
 			}
-		} else {
+		default:
 			res.class("step:config-accepted")
 			if k, m := c19PolicyMatches(x, after, npol, ips, hosts); k != "" {
-				if after.policy() == obs.policy() && strings.HasPrefix(k, "dropped:") == false {
+				if after.policy() == obs.policy() && !strings.HasPrefix(k, "dropped:") {
 					k = "reload:policy-not-new"
 				}
-				return fail(k, fmt.Sprintf("%s: the configuration loaded without error, so its policies must be in force: %s", where, m))
+				res.report(k, fmt.Sprintf("%s: the configuration loaded without error, so its policies must be in force: %s", where, m))
 			}
 			if diskSub >= 0 {
 				if ok, why := c19SelectorIs(after, diskSub); !ok {
-					return fail("reload:selector-not-new", fmt.Sprintf("%s: configuration and subnet file loaded without error, but the selector does not answer from the new subnets: %s", where, why))
+					res.report("reload:selector-not-new", fmt.Sprintf("%s: configuration and subnet file loaded without error, but the selector does not answer from the new subnets: %s", where, why))
+				} else {
+					curSub = diskSub
 				}
-				curSub = diskSub
 				res.class("step:subnets-replaced")
 				hadSuccess = true
 			} else {
 				res.class("step:subnets-failed")
 				if after.selector() != obs.selector() {
-					return fail("reload:selector-changed-after-failed-load", fmt.Sprintf("%s: the subnet file failed to load but the selector's answers changed: before %s after %s", where, obs.selector(), after.selector()))
+					res.report("reload:selector-changed-after-failed-load", fmt.Sprintf("%s: the subnet file failed to load but the selector's answers changed: before %s after %s", where, obs.selector(), after.selector()))
 				}
 				if hadSuccess {
 					res.class("fail-after-success")
@@ -526,17 +549,14 @@ func c19RunReload(x *c19Ctx, c c19ReloadCase) (res c19Result) {
 			}
 		}
 		if ok, why := c19SelectorIs(after, curSub); !ok {
-			return fail("reload:selector-mixed", fmt.Sprintf("%s: the selector answers from no single version: %s", where, why))
+			res.report("reload:selector-mixed", fmt.Sprintf("%s: the selector answers from no single version: %s", where, why))
 		}
-		if k, m := st.housekeeping(where); k != "" {
-			return fail(k, m)
-		}
+		st.housekeeping(where, res.report)
 		if p := c19Recover(func() { st.rm.RemoveOldRegistrations() }); p != nil {
-			return fail("panic:remove-old", fmt.Sprintf("%s: RemoveOldRegistrations panicked: %s", where, p.Val))
+			res.report("panic:remove-old", fmt.Sprintf("%s: RemoveOldRegistrations panicked: %s", where, p.Val))
 		}
 		obs = after
 	}
-	return res
 }
 
 func c19SubState(v int) string {
@@ -547,22 +567,35 @@ func c19SubState(v int) string {
 }
 
 func c19CheckReload(t vh.Fataler, rec *vh.Rec, x *c19Ctx, c c19ReloadCase) {
-	res := c19RunReload(x, c)
-	var classes []string
-	for k := range res.classes {
-		classes = append(classes, k)
+	res := &c19Result{classes: map[string]bool{}}
+	recorded := false
+	record := func() {
+		if recorded {
+			return
+		}
+		recorded = true
+		var classes []string
+		for k := range res.classes {
+			classes = append(classes, k)
+		}
+		sort.Strings(classes)
+		rec.Case(res.classes["fail-after-success"], vh.Digest(c), c, classes...)
 	}
-	sort.Strings(classes)
-	rec.Case(res.classes["fail-after-success"], vh.Digest(c), c, classes...)
-	if res.key == "harness" {
-		t.Fatalf("harness problem: %s", res.msg)
-	}
-	if res.key != "" {
+	defer record()
+	res.report = func(key, msg string) {
+		if _, known := vh.IsKnown(rec.Prop, key); !known {
+			record() // the test ends inside rec.Violation
+		}
 		var steps []string
 		for _, s := range c.Steps {
 			steps = append(steps, s.String())
 		}
-		rec.Violation(t, res.key, c, "%s; sequence=%v", res.msg, steps)
+		rec.Violation(t, key, c, "%s; sequence=%v", msg, steps)
+	}
+	c19RunReload(x, c, res)
+	if res.harness != "" {
+		record()
+		t.Fatalf("harness problem: %s", res.harness)
 	}
 }
 
